@@ -79,7 +79,8 @@ def cases(draw, ctx, layouts):
         b, c = draw(axis_box(n[k], bs[k]))
         boxes.append(b)
         classes.append(c)
-    case = {"file": desc, "by": draw(st.sampled_from(["index", "coord"])), "kind": kind}
+    case = {"file": desc, "by": draw(st.sampled_from(["index", "coord"])), "kind": kind,
+            "boxform": draw(st.sampled_from(["tuple", "tuple", "list", "array", "npint"]))}
     if kind == "invalid":
         which = draw(st.sampled_from(["allnone", 0, 1, 2, "offaxis"]))
         if which == "allnone":
@@ -206,7 +207,9 @@ def run_case(case, ctx):
     d = ctx.tmp()
     path, T = files.build(case["file"], d, "src.sgz")
     out = os.path.join(d, "crop.sgz")
-    box = [None if b is None else tuple(b) for b in case["box"]]
+    # the form the ranges arrive in: tuples, lists, rows of an integer array, pairs of NumPy scalars
+    mk = {"list": list, "array": lambda b: np.array(b, dtype=np.int64), "npint": lambda b: (np.int32(b[0]), np.int64(b[1]))}.get(case.get("boxform"), tuple)
+    box = [None if b is None else mk(b) for b in case["box"]]
     fam = case["file"]["family"]
     exc = None
     sentinel = None
@@ -247,7 +250,9 @@ def run_case(case, ctx):
                 zaxis = np.array(cropper.zslices, dtype=np.float64)
                 if len(zaxis) != len(T.samples) or (np.abs(zaxis - T.samples) > 1e-9 + 1e-12 * np.abs(T.samples)).any():
                     raise Violation("source-sample-axis", f"reader reports {zaxis[:3]}.., the file states {T.samples[:3]}..")
-                cb = [to_coords(T, box[k], k, offaxis=(case.get("offaxis") == k), zaxis=zaxis) for k in range(3)]
+                cb = [to_coords(T, None if case["box"][k] is None else tuple(case["box"][k]), k, offaxis=(case.get("offaxis") == k), zaxis=zaxis) for k in range(3)]
+                mkc = {"list": list, "array": np.array}.get(case.get("boxform"), tuple)
+                cb = [None if v is None else mkc(v) for v in cb]
                 cropper.write_cropped_file_by_coords(out, cb[0], cb[1], cb[2])
         except Exception as e:
             exc = e
@@ -288,7 +293,7 @@ def run_case(case, ctx):
                 if a.shape != e.shape or not np.array_equal(a, e):
                     raise Violation("cropped-tracefield", f"{what}: field {f} differs from the source's sub-array")
         return w
-    w = check_crop(out, box, "cropped")
+    w = check_crop(out, [None if b is None else tuple(int(x) for x in b) for b in case["box"]], "cropped")
     if box2 is not None:
         if exc2 is not None:
             if not (fam != "4x4" and not os.path.exists(out2)):
